@@ -15,12 +15,13 @@ Proof. exact tree_repaired. Qed.
 (* ---- the property, full strength: for EVERY history of public calls (reads absolute or GD_HERE of
    any window, seeks SET/CUR/END, tells, raw_close/flush of a field or of everything, LRU auto-closes
    in any order, calls that fail with GD_E_RANGE/GD_E_DOMAIN/bad field) on a handle over ANY
-   well-formed field table of RAW (raw/gzip, bzip2, text), PHASE, LINCOM, BIT, MULTIPLY fields, every
+   well-formed field table of RAW (raw/gzip, bzip2, text), PHASE, LINCOM, BIT, MULTIPLY fields (no side
+   condition on MULTIPLY extents since cf7d300), every
    libbz2-conforming decoder and buffer size: an absolute read of any window of any field returns
    exactly the window of the whole-field contents. *)
 Theorem history_independent :
   forall BUF dec, (forall S, dec_ok BUF dec S) ->
-  forall d, wf_db d -> mult_ok d ->
+  forall d, wf_db d ->
   forall (h : list call) f fd k n,
     nth_error (d_fields d) f = Some fd -> 0 <= k <= 2 ^ 61 -> 0 <= n <= 2 ^ 61 ->
     snd (step dec d (run dec d (init d) h) (CGet f (Some k) n)) = RData (spec_window d f k n).
@@ -76,8 +77,8 @@ Proof. exact cursor_history_independent. Qed.
 (* ---- hypotheses are satisfiable: libbz2 as observed, and a concrete database on the checked tree *)
 Theorem libbz2_model_conforms : forall BUF eager, 0 < BUF -> forall S, dec_ok BUF (dec_bz2 BUF eager) S.
 Proof. exact dec_bz2_ok. Qed.
-Example hypotheses_satisfiable : wf_db db_ex /\ mult_ok db_ex /\ d_cfg db_ex = tree_cfg.
-Proof. exact (conj db_ex_wf (conj db_ex_mult eq_refl)). Qed.
+Example hypotheses_satisfiable : wf_db db_ex /\ d_cfg db_ex = tree_cfg.
+Proof. exact (conj db_ex_wf eq_refl). Qed.
 
 (* ---- history: the statement was false for the tree before commits e69eeed..e34b6b0
    (cfg0 = every repair flag off); one computed witness per defect, each also right after the repair *)
